@@ -1,6 +1,6 @@
 (* Properties_C16.v — the theorems that decide property C16 on the model, each stated in full and closed by
    `exact <lemma>`; the lemmas live in the Proofs_*.v files.  Nothing else belongs in this file. *)
-From Theo Require Import Base VMModel VMSpec VMStatements VMCheck VMCheckStatements Proofs_VMCheck GenWfStatements Tokens Errors MacroExtract Parser GenModel CompileStatements Proofs_GenWf.
+From Theo Require Import Base VMModel VMSpec VMStatements VMCheck VMCheckStatements Proofs_VMCheck GenWfStatements Tokens Errors MacroExtract Parser GenModel CompileStatements Proofs_GenWf RefHaltStatements RefSem SemStatements Proofs_RefHalt.
 Local Open Scope Z_scope.
 Local Open Scope Z_scope.
 
@@ -39,3 +39,9 @@ Theorem C16_gen_depth :
                         zlen (stack s) <= zlen (exec_targets (gr_prog r)) + 1.
 Proof. exact C03_gen_safe_proof. Qed.
 Print Assumptions C16_gen_depth.
+
+Theorem C16_ref_loop_halts :
+  forall root rs, loop_only root = true -> abstract_source (Some root) = Some rs ->
+    exists fuel views steps trace, run_ref fuel rs = OStop views steps trace.
+Proof. exact C16_ref_loop_halts_proof. Qed.
+Print Assumptions C16_ref_loop_halts.
